@@ -6,6 +6,7 @@ import (
 	"context"
 	"fmt"
 	"sort"
+	"strconv"
 	"strings"
 
 	ipfspinner "github.com/ipfs/boxo/pinning/pinner"
@@ -36,7 +37,7 @@ func pinName(w string) string {
 // pinnedSet asks the live pinner which CIDs are pinned (any mode, incl. indirectly).
 func pinnedSet(f *fixture, p ipfspinner.Pinner) (map[string]bool, error) {
 	out := map[string]bool{}
-	for _, c := range cidNames {
+	for _, c := range append(append([]string{}, cidNames...), f.extra...) {
 		_, ok, err := p.IsPinned(context.Background(), f.cids[c])
 		if err != nil {
 			return nil, fmt.Errorf("IsPinned(%s): %w", c, err)
@@ -121,6 +122,16 @@ func runHistory(cfg string, ops []string) (*history, error) {
 	defer p.Close()
 	if cfgVal(cfg, "auto") == "0" {
 		p.SetAutosync(false)
+	}
+	// many=N: N direct pins exist before the history starts (the repair on open
+	// syncs and clears the dirty flag every syncRepairFrequency=50 records)
+	if m, _ := strconv.Atoi(cfgVal(cfg, "many")); m > 0 {
+		h.f.addExtraLeaves(m)
+		for _, x := range h.f.extra {
+			if err := p.PinWithMode(context.Background(), h.f.cids[x], ipfspinner.Direct, ""); err != nil {
+				return nil, err
+			}
+		}
 	}
 	for _, op := range ops {
 		sp := opSpan{Op: op, Start: h.rec.writes()}
@@ -209,23 +220,38 @@ type imageVerdict struct {
 	dirty     string // dirty flag in the image before reopening
 	repaired  bool   // reopening changed pins/indexes
 	unstable  bool   // a second reopen gave different answers (not part of the statement; counted only)
+	records        int // pin records in the image
+	recoveryWrites int // datastore writes made by dspinner.New on this image
+	nextGenImages  int // crash images taken inside the recovery run (all generations below this one)
+	nextGenFailing int
 	preCanon  string
 	postCanon string
 }
 
 // evalImage reopens a pinner on the image and checks the two recovery
 // invariants of the statement. required = CIDs that must still be pinned.
-func evalImage(f *fixture, img map[string][]byte, required map[string]bool) *imageVerdict {
+//
+// The writes that the recovery run of dspinner.New makes are logged too: they
+// are datastore writes made by the pinner, so the process may stop after any of
+// them. When gensLeft > 0 and the recovery made at least two writes, every
+// proper prefix of the recovery's write log is taken as a next-generation crash
+// image (first crash image + the first k recovery writes) and judged the same
+// way through sub (which caches). A k that ends at the last write is the
+// completed recovery, already judged here.
+func evalImage(f *fixture, img map[string][]byte, required map[string]bool, gensLeft int, sub func(img map[string][]byte, gensLeft int) *imageVerdict) *imageVerdict {
 	ctx := context.Background()
-	d := imageDS(img)
-	pre := f.dumpRaw(d)
-	v := &imageVerdict{dirty: pre.Dirty, preCanon: pre.canon()}
-	p, err := dspinner.New(ctx, dssync.MutexWrap(d), f.dserv)
+	rec := newRecorderFrom(img)
+	pre := f.dumpRaw(rec.inner)
+	v := &imageVerdict{dirty: pre.Dirty, preCanon: pre.canon(), records: len(pre.Pins)}
+	// The order of Query results is unspecified: the recovery is shown the pin
+	// records that need a repair last (a legal, least favourable order).
+	p, err := dspinner.New(ctx, &orderDS{recorder: rec, last: pre.unindexedRecordKeys()}, f.dserv)
 	if err != nil {
 		v.viols = append(v.viols, eng.V("reopen-failed", "", fmt.Sprintf("dspinner.New on the crash image failed: %v", err)))
 		return v
 	}
-	post := f.dumpRaw(d)
+	v.recoveryWrites = rec.writes()
+	post := f.dumpRaw(rec.inner)
 	v.postCanon = post.canon()
 	pre.Dirty, post.Dirty = "", ""
 	v.repaired = pre.canon() != post.canon()
@@ -247,6 +273,7 @@ func evalImage(f *fixture, img map[string][]byte, required map[string]bool) *ima
 		}
 	}
 	// second reopen (idempotence of recovery; informational)
+	d := imageDS(rec.images[rec.writes()])
 	p2, err := dspinner.New(ctx, dssync.MutexWrap(d), f.dserv)
 	if err == nil {
 		got2, err2 := pinnedSet(f, p2)
@@ -258,6 +285,38 @@ func evalImage(f *fixture, img map[string][]byte, required map[string]bool) *ima
 		}
 	} else {
 		v.unstable = true
+	}
+	// the recovery itself is interrupted
+	if gensLeft > 0 && sub != nil && rec.writes() >= 2 {
+		for k := 1; k < rec.writes(); k++ {
+			sv := sub(rec.images[k], gensLeft-1)
+			v.nextGenImages += 1 + sv.nextGenImages
+			if len(sv.viols) > 0 {
+				v.nextGenFailing++
+			}
+			last := rec.log[rec.writeAt[k]]
+			for _, tv := range sv.viols {
+				vv := *tv
+				vv.Features = map[string]string{}
+				for fk, fv := range tv.Features {
+					vv.Features[fk] = fv
+				}
+				if _, deeper := vv.Features["recovery_interrupted"]; !deeper {
+					vv.Features["recovery_interrupted"] = "true"
+					vv.Features["recovery_last_write"] = writeClass(last)
+					// had the recovery already written the dirty flag (cleared it) before it was interrupted?
+					cleared := false
+					for w := 1; w <= k; w++ {
+						if writeClass(rec.log[rec.writeAt[w]]) == "put:dirty" {
+							cleared = true
+						}
+					}
+					vv.Features["recovery_flag_cleared"] = fmt.Sprint(cleared)
+				}
+				vv.Detail = fmt.Sprintf("the recovery run on reopen was itself interrupted after its write %d of %d (%s %s), then reopened again: %s", k, rec.writes(), last.Kind, last.Key, tv.Detail)
+				v.viols = append(v.viols, &vv)
+			}
+		}
 	}
 	return v
 }
